@@ -335,6 +335,16 @@ func exec(c proto.Case, o *proto.Out) []string {
 				break
 			}
 			outs[i] = st.rl.reload(g == "1", eps, o)
+		case "fail":
+			ps, ok1 := kv("put")
+			ds, ok2 := kv("del")
+			pn, e1 := strconv.Atoi(ps)
+			dn, e2 := strconv.Atoi(ds)
+			if !ok1 || !ok2 || e1 != nil || e2 != nil || pn < 0 || dn < 0 || st.mode != 3 {
+				outs[i] = "bad-op"
+				break
+			}
+			outs[i] = st.rl.fail(pn, dn)
 		case "advance":
 			ms, ok := kv("ms")
 			n, err := strconv.ParseInt(ms, 10, 64)
